@@ -948,4 +948,5 @@ if __name__ == "__main__":
              "R-PANIC/R-LOOP over the call graph of poll(): typestate unreachability from the proved station invariant, interval/zone proofs with "
              "call-site and type-invariant hypotheses, must-guards, delegated totality clauses, named hypotheses.",
              trusted_base=["rustc MIR (nightly) via engines/mirfacts", "analysis/panics.py MAY_PANIC_EXTERN table", "numdom transfer functions",
-                           "callback contracts of ProfibusPhy helpers (C16)"])
+                           "callback contracts of ProfibusPhy helpers (C16)"],
+             thorough_configs=("no_default", "alloc", "debug_measure"))
